@@ -46,11 +46,26 @@ var c15Pool = []c15Route{
 type c15Stanza struct {
 	Pref     ndp.Preference
 	Lifetime time.Duration
+	// Deprecated: the stanza's lifetime counts down from the epoch; the clock stands at
+	// epoch + Elapsed, so "the stanza's lifetime" is what remains then.
+	Deprecated bool
+	Elapsed    time.Duration
 }
 
 var c15Stanzas = []c15Stanza{
-	{ndp.Medium, 24 * time.Hour},
-	{ndp.High, 10 * time.Second},
+	{Pref: ndp.Medium, Lifetime: 24 * time.Hour},
+	{Pref: ndp.High, Lifetime: 10 * time.Second},
+	{Pref: ndp.Low, Lifetime: time.Hour, Deprecated: true, Elapsed: 20 * time.Minute},
+}
+
+func (st c15Stanza) want() time.Duration {
+	if !st.Deprecated {
+		return st.Lifetime
+	}
+	if st.Elapsed >= st.Lifetime {
+		return 0
+	}
+	return st.Lifetime - st.Elapsed
 }
 
 type c15Case struct {
@@ -90,7 +105,7 @@ func c15Expected(c c15Case) []ndp.Option {
 		out = append(out, &ndp.RouteInformation{
 			PrefixLength:  uint8(p.Bits()),
 			Preference:    st.Pref,
-			RouteLifetime: st.Lifetime,
+			RouteLifetime: st.want(),
 			Prefix:        p.Addr(),
 		})
 	}
@@ -104,8 +119,9 @@ func c15Run(c c15Case) (opts []ndp.Option, err error, panicked any) {
 		Prefix:     netip.MustParsePrefix("::/0"),
 		Preference: st.Pref,
 		Lifetime:   st.Lifetime,
+		Deprecated: st.Deprecated,
 		Epoch:      vfEpoch,
-		TimeNow:    func() time.Time { return vfEpoch },
+		TimeNow:    func() time.Time { return vfEpoch.Add(st.Elapsed) },
 	}
 	var in []system.Route
 	for i, r := range c.Routes {
@@ -219,7 +235,7 @@ func c15Nontrivial(c c15Case) bool {
 func TestVerifC15(t *testing.T) {
 	r := ev.Begin("C15", "enum")
 	defer r.End(t)
-	r.Rule = "route lists = all subsets (size<=K) of a 12-route pool (nested prefixes with equal and different base address, /128s, ::/0, IPv4, disjoint), each in all permutations, plus each list with one element duplicated, x 2 stanza variants, + failing source; non-trivial = >=1 advertised route and (a dropped route or >=2 advertised); distinct = distinct ordered list x stanza"
+	r.Rule = "route lists = all subsets (size<=K) of a 12-route pool (nested prefixes with equal and different base address, /128s, ::/0, IPv4, disjoint), each in all permutations, plus each list with one element duplicated, x 3 stanza variants (one deprecated, 20 min into its hour), + failing source; non-trivial = >=1 advertised route and (a dropped route or >=2 advertised); distinct = distinct ordered list x stanza"
 	r.Assumptions = []string{"route source replaced by an injected function (Route.Routes); the rtnetlink loopback-route dump is not covered"}
 
 	if r.Replay != nil {
